@@ -873,3 +873,444 @@ Proof.
     rewrite alookup_aset, bytes_eqb_refl. reflexivity.
   - exact (IH _ _ _ _ _ _ H Hnd o0 Hin).
 Qed.
+
+Lemma update_object_metadata_values (P : sobj -> Prop) : forall objs n f prev om prev' om',
+  update_object_metadata objs n f prev om = Ok (prev', om') ->
+  (forall p po, alookup p prev = Some po -> P po) ->
+  Forall P objs ->
+  forall p po, alookup p prev' = Some po -> P po.
+Proof.
+  induction objs as [|o r IH]; intros n f prev om prev' om' H Hp HF; cbn [update_object_metadata] in H.
+  - injection H as <- _. exact Hp.
+  - destruct (update_ometa (get_ometa (so_path o) om) o n f) as [m|e]; cbn [bind] in H; [|discriminate].
+    apply Forall_cons_iff in HF. destruct HF as [Ho HF].
+    apply (IH _ _ _ _ _ _ H); [|exact HF].
+    intros p po Ha. rewrite alookup_aset in Ha. destruct (bytes_eqb p (so_path o)).
+    + injection Ha as <-. exact Ho.
+    + exact (Hp p po Ha).
+Qed.
+
+(* ======================================================================== *)
+(* The machine establishes the hypotheses of T2 by itself                     *)
+(* ======================================================================== *)
+
+(* an object that has only ever been declared "no data" (possibly followed by
+   "matches previous", which the reader accepts) *)
+Definition never_indexed (o : sobj) : Prop := set_has_data o false = blank (so_path o).
+
+(* closed under every transition of the machine *)
+Definition wf_obj (o : sobj) : Prop := indexed o \/ never_indexed o.
+
+Lemma new_object_wf p i o : new_object p i = Ok o -> wf_obj o.
+Proof.
+  intros H. destruct (new_object_indexed_or_blank p i o H) as [Hi| ->].
+  - left. exact Hi.
+  - right. reflexivity.
+Qed.
+
+Theorem update_existing_wf o i o' : update_existing o i = Ok o' -> wf_obj o -> wf_obj o'.
+Proof.
+  intros H Hw. pose proof H as H0. unfold update_existing in H.
+  destruct i as [| |lf dt dim n total|kind dt dim n scalers widths].
+  - injection H as <-. destruct (so_has_data o); exact Hw.
+  - injection H as <-. destruct (so_has_data o); exact Hw.
+  - apply (new_object_wf _ _ _ H).
+  - apply (new_object_wf _ _ _ H).
+Qed.
+
+Theorem reuse_previous_wf po i o' : reuse_previous po i = Ok o' -> wf_obj po -> wf_obj o'.
+Proof. exact (update_existing_wf po i o'). Qed.
+
+Lemma never_indexed_dtype o : never_indexed o -> so_dtype o = None.
+Proof. intros H. apply (f_equal so_dtype) in H. exact H. Qed.
+
+Lemma new_object_dtype p i o :
+  new_object p i = Ok o -> so_has_data o = true -> so_dtype o <> None.
+Proof.
+  unfold new_object. intros H Hd.
+  destruct i as [| |lf dt dim n total|kind dt dim n scalers widths].
+  - injection H as <-. discriminate Hd.
+  - injection H as <-. discriminate Hd.
+  - destruct (tds_size dt) as [sz|]; [|discriminate].
+    destruct (_ && _); [discriminate|].
+    destruct (negb (dim =? 1)); [discriminate|].
+    injection H as <-. discriminate.
+  - destruct (tds_size dt) as [sz|]; [|discriminate].
+    destruct (negb (dim =? 1)); [discriminate|].
+    destruct (negb (forallb _ scalers)); [discriminate|].
+    destruct (_ && _); [discriminate|].
+    injection H as <-. discriminate.
+Qed.
+
+Lemma indexed_dtype o : indexed o -> so_dtype o <> None.
+Proof.
+  intros Hi. specialize (Hi eq_refl).
+  exact (new_object_dtype _ _ _ Hi eq_refl).
+Qed.
+
+(* a well-formed object fails to be canonical only in the degenerate case
+   "has data but never got an index" *)
+Lemma wf_obj_canonical o :
+  wf_obj o -> (so_has_data o = true -> so_dtype o <> None) -> canonical o.
+Proof.
+  intros [Hi|Hn] Hd.
+  - apply indexed_canonical. exact Hi.
+  - intros Hh. exfalso. apply (Hd Hh). apply never_indexed_dtype. exact Hn.
+Qed.
+
+Lemma update_existing_nodata o i o' :
+  update_existing o i = Ok o' -> so_has_data o' = false -> o' = set_has_data o false.
+Proof.
+  intros H Hd. pose proof H as H0. unfold update_existing in H.
+  destruct i as [| |lf dt dim n total|kind dt dim n scalers widths].
+  - injection H as <-. destruct (so_has_data o) eqn:Ho; [reflexivity|].
+    symmetry. apply set_has_data_same. exact Ho.
+  - injection H as <-. destruct (so_has_data o) eqn:Ho.
+    + rewrite Ho in Hd. discriminate Hd.
+    + discriminate Hd.
+  - rewrite (new_object_has_data _ _ _ H) in Hd. discriminate Hd.
+  - rewrite (new_object_has_data _ _ _ H) in Hd. discriminate Hd.
+Qed.
+
+Definition base_tracked (base : option (list sobj)) (prev : alist sobj) : Prop :=
+  match base with
+  | Some b => forall o, In o b -> alookup (so_path o) prev = Some o
+  | None => True
+  end.
+
+Definition prev_wf (prev : alist sobj) : Prop :=
+  forall p po, alookup p prev = Some po -> wf_obj po.
+
+Definition obj_ok (prev : alist sobj) (o : sobj) : Prop := wf_obj o /\ nodata_ok prev o.
+
+Lemma Forall_replace_nth {A} (P : A -> Prop) (l : list A) i x :
+  Forall P l -> P x -> Forall P (replace_nth i x l).
+Proof.
+  intros Hl Hx. apply Forall_forall. intros y Hy. apply In_replace_nth in Hy.
+  destruct Hy as [->|Hy]; [exact Hx|]. rewrite Forall_forall in Hl. exact (Hl y Hy).
+Qed.
+
+Lemma step_entry_obj_ok base prev ordered x ordered' :
+  prev_keys_ok prev -> prev_wf prev -> base_tracked base prev ->
+  step_entry base prev ordered x = Ok ordered' ->
+  Forall (obj_ok prev) ordered -> Forall (obj_ok prev) ordered'.
+Proof.
+  intros Hk Hw Hb Hs HF. unfold step_entry in Hs.
+  destruct (match base with Some b => existing_lookup (e_path x) 0 b None | None => None end)
+    as [[i o]|] eqn:E.
+  - destruct base as [b|]; [|discriminate E].
+    apply existing_lookup_some in E. destruct E as (_ & Hn & Hp).
+    apply nth_error_In in Hn. pose proof (Hb o Hn) as Ha.
+    destruct (update_existing o (e_idx x)) as [o'|e] eqn:Eu; cbn [bind] in Hs; [|discriminate].
+    injection Hs as <-. apply Forall_replace_nth; [exact HF|]. split.
+    + apply (update_existing_wf _ _ _ Eu). apply (Hw _ _ Ha).
+    + intros Hd. rewrite (update_existing_path _ _ _ Eu), Ha.
+      symmetry. apply (update_existing_nodata _ _ _ Eu Hd).
+  - destruct (alookup (e_path x) prev) as [po|] eqn:Ea.
+    + destruct (reuse_previous po (e_idx x)) as [o'|e] eqn:Er; cbn [bind] in Hs; [|discriminate].
+      injection Hs as <-. apply Forall_app. split; [exact HF|]. apply Forall_cons; [|apply Forall_nil].
+      split.
+      * apply (reuse_previous_wf _ _ _ Er). apply (Hw _ _ Ea).
+      * intros Hd. rewrite (reuse_previous_path _ _ _ Er), (Hk _ _ Ea), Ea.
+        symmetry. apply (update_existing_nodata _ _ _ Er Hd).
+    + assert (Hx : exists o', new_object (e_path x) (e_idx x) = Ok o' /\ ordered' = ordered ++ [o']).
+      { destruct (e_idx x) as [| |lf dt dim n total|kind dt dim n scalers widths] eqn:Ei;
+          [|discriminate| |];
+          match type of Hs with
+          | bind ?r _ = _ => destruct r as [o'|e] eqn:En; cbn [bind] in Hs; [|discriminate]
+          end;
+          injection Hs as <-; exists o'; (split; reflexivity). }
+      destruct Hx as (o' & Hn & ->).
+      apply Forall_app. split; [exact HF|]. apply Forall_cons; [|apply Forall_nil].
+      split; [apply (new_object_wf _ _ _ Hn)|].
+      intros Hd. rewrite (new_object_path _ _ _ Hn), Ea.
+      destruct (new_object_indexed_or_blank _ _ _ Hn) as [Hi|Hbl]; [|exact Hbl].
+      pose proof (new_object_has_data _ _ _ Hn) as Hh. rewrite Hd in Hh.
+      destruct (e_idx x); try discriminate Hh; cbn in Hn; injection Hn as <-; reflexivity.
+Qed.
+
+Lemma fold_entries_obj_ok base prev : forall es ordered r,
+  prev_keys_ok prev -> prev_wf prev -> base_tracked base prev ->
+  fold_entries base prev ordered es = Ok r ->
+  Forall (obj_ok prev) ordered -> Forall (obj_ok prev) r.
+Proof.
+  induction es as [|x es IH]; intros ordered r Hk Hw Hb Hf HF; cbn [fold_entries] in Hf.
+  - injection Hf as <-. exact HF.
+  - destruct (step_entry base prev ordered x) as [ordered'|e] eqn:Es; cbn [bind] in Hf; [|discriminate].
+    apply (IH ordered' r Hk Hw Hb Hf).
+    apply (step_entry_obj_ok base prev ordered x ordered' Hk Hw Hb Es HF).
+Qed.
+
+Lemma tracked_obj_ok prev o : prev_wf prev -> alookup (so_path o) prev = Some o -> obj_ok prev o.
+Proof.
+  intros Hw Ha. split; [apply (Hw _ _ Ha)|].
+  intros Hd. rewrite Ha. apply set_has_data_same. exact Hd.
+Qed.
+
+(* whatever encoding the segment uses (metadata absent / inherited list /
+   new list; full, matches-previous, no-data or unlisted objects), the list
+   it produces satisfies the hypotheses of T2 w.r.t. the same global map *)
+Theorem read_segment_objects_obj_ok toc metadata prev_objs prev_seg objs props :
+  prev_keys_ok prev_objs -> prev_wf prev_objs -> base_tracked prev_seg prev_objs ->
+  read_segment_objects toc metadata prev_objs prev_seg = Ok (objs, props) ->
+  Forall (obj_ok prev_objs) objs.
+Proof.
+  intros Hk Hw Hb H. unfold read_segment_objects in H.
+  assert (Hbase : forall b, prev_seg = Some b -> Forall (obj_ok prev_objs) b).
+  { intros b ->. apply Forall_forall. intros o Ho. apply (tracked_obj_ok _ _ Hw). apply (Hb o Ho). }
+  destruct metadata as [es|].
+  - set (base := if toc_has toc TOC_NEWLIST then None else prev_seg) in H.
+    destruct (fold_entries base prev_objs match base with Some l => l | None => [] end es)
+      as [r|e] eqn:Ef; cbn [bind] in H; [|discriminate].
+    injection H as <- _.
+    apply (fold_entries_obj_ok base prev_objs es (match base with Some l => l | None => [] end) r Hk Hw);
+      [|exact Ef|].
+    + unfold base. destruct (toc_has toc TOC_NEWLIST); [exact I|exact Hb].
+    + unfold base. destruct (toc_has toc TOC_NEWLIST); [apply Forall_nil|].
+      destruct prev_seg as [b|]; [apply (Hbase b eq_refl)|apply Forall_nil].
+  - destruct prev_seg as [b|]; [|discriminate]. injection H as <- _. apply (Hbase b eq_refl).
+Qed.
+
+(* One step of "inheritance never changes what is read": under the reader's
+   state invariants, the object list a segment produces is reproduced exactly
+   by its fully explicit encoding (new object list, every object restated),
+   provided no object has data without ever having received an index. *)
+Theorem inheritance_transparent_step toc metadata prev_objs prev_seg objs props toc' :
+  prev_keys_ok prev_objs -> prev_wf prev_objs -> base_tracked prev_seg prev_objs ->
+  read_segment_objects toc metadata prev_objs prev_seg = Ok (objs, props) ->
+  (forall o, In o objs -> so_has_data o = true -> so_dtype o <> None) ->
+  toc_has toc' TOC_NEWLIST = true ->
+  read_segment_objects toc' (Some (explicit_entries objs)) prev_objs prev_seg = Ok (objs, []).
+Proof.
+  intros Hk Hw Hb H Hd Ht.
+  pose proof (read_segment_objects_obj_ok _ _ _ _ _ _ Hk Hw Hb H) as Hok.
+  rewrite Forall_forall in Hok.
+  apply explicit_segment_same_objects; [exact Ht|exact Hk| |].
+  - apply Forall_forall. intros o Ho. apply wf_obj_canonical; [apply (Hok o Ho)|apply (Hd o Ho)].
+  - apply Forall_forall. intros o Ho. apply (Hok o Ho).
+Qed.
+
+(* the reader starts with an empty global map and no previous segment *)
+Theorem state_invariants_initial : prev_keys_ok [] /\ prev_wf [] /\ base_tracked None [].
+Proof.
+  split; [exact prev_keys_ok_nil|]. split; [|exact I].
+  intros p po H. discriminate H.
+Qed.
+
+(* the state invariants are re-established after the segment *)
+Theorem state_invariants_preserved objs n f prev_objs om prev' om' :
+  update_object_metadata objs n f prev_objs om = Ok (prev', om') ->
+  prev_keys_ok prev_objs -> prev_wf prev_objs ->
+  Forall (obj_ok prev_objs) objs -> NoDup (map so_path objs) ->
+  prev_keys_ok prev' /\ prev_wf prev' /\ base_tracked (Some objs) prev'.
+Proof.
+  intros H Hk Hw Hok Hnd. split; [|split].
+  - apply (update_object_metadata_keys_ok _ _ _ _ _ _ _ H Hk).
+  - refine (update_object_metadata_values wf_obj _ _ _ _ _ _ _ H Hw _).
+    apply Forall_forall. intros o Ho. rewrite Forall_forall in Hok. apply (Hok o Ho).
+  - exact (proj1 (prev_objs_tracks_segments _ _ _ _ _ _ _ H Hnd)).
+Qed.
+
+(* ======================================================================== *)
+(* Concrete instances: the hypotheses are satisfiable and none is idle        *)
+(* ======================================================================== *)
+
+Fixpoint nodupb (l : list bytes) : bool :=
+  match l with
+  | [] => true
+  | p :: r => negb (existsb (bytes_eqb p) r) && nodupb r
+  end.
+
+Lemma nodupb_sound l : nodupb l = true -> NoDup l.
+Proof.
+  induction l as [|p r IH]; cbn; intros H; [apply NoDup_nil|].
+  apply andb_true_iff in H. destruct H as [Hp Hr].
+  apply NoDup_cons; [|apply IH; exact Hr].
+  intros Hin. apply negb_true_iff in Hp.
+  assert (Hx : existsb (bytes_eqb p) r = true).
+  { apply existsb_exists. exists p. split; [exact Hin|apply bytes_eqb_refl]. }
+  rewrite Hx in Hp. discriminate Hp.
+Qed.
+
+Module Ex.
+  Definition pA : bytes := ["a"%byte].
+  Definition pB : bytes := ["b"%byte].
+  Definition pC : bytes := ["c"%byte].
+  Definition pD : bytes := ["d"%byte].
+  (* int32 x 4, has data *)
+  Definition oA := mkSobj pA true 4 16 (Some 3) None.
+  (* float64 x 10, no data in the previous segment *)
+  Definition oB := mkSobj pB false 10 80 (Some 10) None.
+  (* strings, 2 values in 9 bytes; only in the global map *)
+  Definition oC := mkSobj pC true 2 9 (Some T_STRING) None.
+  Definition base := [oA; oB].
+  Definition prev : alist sobj := [(pA, oA); (pB, oB); (pC, oC)].
+  Definition aprop := mkProp ["n"%byte] 3 ["1"%byte; "0"%byte; "0"%byte; "0"%byte].
+  Definition es :=
+    [ mkEntry pB IMatchPrev [];
+      mkEntry pC INoData [aprop];
+      mkEntry pD (IFull 20 5 1 7 None) [];
+      mkEntry pA (IFull 20 3 1 6 None) [] ].
+  Definition result :=
+    [ mkSobj pA true 6 24 (Some 3) None;
+      mkSobj pB true 10 80 (Some 10) None;
+      mkSobj pC false 2 9 (Some T_STRING) None;
+      mkSobj pD true 7 7 (Some 5) None ].
+End Ex.
+
+Lemma ex_prev_keys_ok : prev_keys_ok Ex.prev.
+Proof. apply prev_keys_ok_Forall. repeat constructor. Qed.
+
+(* T1: an inherited list where the listing order differs from the list order,
+   one object is re-activated, one is reused from the global map, one is new *)
+Example positional_update_is_update_by_path_instance :
+  prev_keys_ok Ex.prev /\ NoDup (map so_path Ex.base) /\ NoDup (map e_path Ex.es) /\
+  fold_entries (Some Ex.base) Ex.prev Ex.base Ex.es = Ok Ex.result /\
+  spec_fold_entries Ex.prev Ex.base Ex.es = Ok Ex.result.
+Proof.
+  split; [exact ex_prev_keys_ok|].
+  split; [apply nodupb_sound; vm_compute; reflexivity|].
+  split; [apply nodupb_sound; vm_compute; reflexivity|].
+  split; vm_compute; reflexivity.
+Qed.
+
+(* the uniqueness hypothesis on the listed paths is needed: listing an
+   inherited object twice makes the second mention act on the STALE object of
+   the index map (here "full index, then matches previous" re-activates the
+   old float64 x 10 index instead of keeping the new int32 x 6 one) *)
+Example stale_index_map_visible_when_listed_twice :
+  let es := [mkEntry Ex.pB (IFull 20 3 1 6 None) []; mkEntry Ex.pB IMatchPrev []] in
+  fold_entries (Some Ex.base) Ex.prev Ex.base es
+    = Ok [Ex.oA; mkSobj Ex.pB true 10 80 (Some 10) None] /\
+  spec_fold_entries Ex.prev Ex.base es
+    = Ok [Ex.oA; mkSobj Ex.pB true 6 24 (Some 3) None].
+Proof. split; vm_compute; reflexivity. Qed.
+
+(* same under a new object list: a path listed twice is appended twice by the
+   mechanism, replaced by the specification *)
+Example new_list_listed_twice :
+  let es := [mkEntry Ex.pD (IFull 20 3 1 6 None) []; mkEntry Ex.pD INoData []] in
+  fold_entries None [] [] es
+    = Ok [mkSobj Ex.pD true 6 24 (Some 3) None; blank Ex.pD] /\
+  spec_fold_entries [] [] es = Ok [mkSobj Ex.pD false 6 24 (Some 3) None].
+Proof. split; vm_compute; reflexivity. Qed.
+
+Lemma ex_result_canonical : Forall canonical Ex.result.
+Proof.
+  repeat (apply Forall_cons;
+          [intros H; first [discriminate H | vm_compute; reflexivity]|]).
+  apply Forall_nil.
+Qed.
+
+Lemma ex_result_nodata_ok : Forall (nodata_ok Ex.prev) Ex.result.
+Proof.
+  repeat (apply Forall_cons;
+          [intros H; first [discriminate H | vm_compute; reflexivity]|]).
+  apply Forall_nil.
+Qed.
+
+(* T2: the list of the T1 instance (one object without data, inherited from
+   the global map; a string object; a new object) restated explicitly *)
+Example explicit_reencoding_same_objects_instance :
+  prev_keys_ok Ex.prev /\ Forall canonical Ex.result /\ Forall (nodata_ok Ex.prev) Ex.result /\
+  explicit_entries Ex.result =
+    [ mkEntry Ex.pA (IFull 20 3 1 6 None) [];
+      mkEntry Ex.pB (IFull 20 10 1 10 None) [];
+      mkEntry Ex.pC INoData [];
+      mkEntry Ex.pD (IFull 20 5 1 7 None) [] ] /\
+  fold_entries None Ex.prev [] (explicit_entries Ex.result) = Ok Ex.result.
+Proof.
+  split; [exact ex_prev_keys_ok|].
+  split; [exact ex_result_canonical|].
+  split; [exact ex_result_nodata_ok|].
+  split; vm_compute; reflexivity.
+Qed.
+
+(* a string object restated in full carries its total size *)
+Example idx_of_string : idx_of Ex.oC = IFull 28 T_STRING 1 2 (Some 9) /\ canonical Ex.oC.
+Proof. split; [reflexivity|intros _; vm_compute; reflexivity]. Qed.
+
+(* a DAQmx object *)
+Example canonical_daqmx :
+  let o := mkSobj Ex.pA true 5 0 (Some T_DAQMX)
+                  (Some (mkDq 0x1269 [mkScaler 3 0 0 0 0; mkScaler 3 0 2 0 1] [4])) in
+  idx_of o = IDaqmx 0x1269 T_DAQMX 1 5 [mkScaler 3 0 0 0 0; mkScaler 3 0 2 0 1] [4] /\
+  canonical o.
+Proof. split; [reflexivity|intros _; vm_compute; reflexivity]. Qed.
+
+(* the side condition of [update_existing_canonical] / of
+   [inheritance_transparent_step] is not idle: "no data" followed by "matches
+   previous" is ACCEPTED by the reader and yields an object that has data but
+   never received an index; no full header restates it *)
+Example match_prev_after_only_no_data :
+  fold_entries None [] [] [mkEntry Ex.pA INoData []] = Ok [blank Ex.pA] /\
+  fold_entries (Some [blank Ex.pA]) [(Ex.pA, blank Ex.pA)] [blank Ex.pA]
+               [mkEntry Ex.pA IMatchPrev []]
+    = Ok [mkSobj Ex.pA true 0 0 None None] /\
+  wf_obj (mkSobj Ex.pA true 0 0 None None) /\
+  ~ canonical (mkSobj Ex.pA true 0 0 None None).
+Proof.
+  split; [reflexivity|]. split; [reflexivity|]. split; [right; reflexivity|].
+  intros Hc. specialize (Hc eq_refl). vm_compute in Hc. discriminate Hc.
+Qed.
+
+(* T3 instances *)
+Example forbidden_rejected_unseen_match_prev_instance :
+  let x := mkEntry Ex.pD IMatchPrev [] in
+  unseen (Some Ex.base) Ex.prev (e_path x) /\ e_idx x = IMatchPrev /\
+  fold_entries (Some Ex.base) Ex.prev Ex.base [mkEntry Ex.pA INoData []] =
+    Ok [mkSobj Ex.pA false 4 16 (Some 3) None; Ex.oB] /\
+  fold_entries (Some Ex.base) Ex.prev Ex.base
+               ([mkEntry Ex.pA INoData []] ++ x :: [mkEntry Ex.pB IMatchPrev []]) = Err EValue.
+Proof.
+  split; [|split; [reflexivity|split; reflexivity]].
+  split; [|reflexivity].
+  cbn. intros [H|[H|[]]]; discriminate H.
+Qed.
+
+Example forbidden_rejected_type_change_instance :
+  let m := mkOmeta [] (Some 3) None 4 in
+  om_dtype m = Some 3 /\ so_dtype Ex.oB <> Some 3 /\
+  update_ometa m Ex.oB 1 None = Err EValue /\
+  (* whereas the same type is accepted and the length accumulates *)
+  update_ometa m Ex.oA 2 None = Ok (mkOmeta [] (Some 3) None 12).
+Proof.
+  split; [reflexivity|]. split; [discriminate|]. split; reflexivity.
+Qed.
+
+(* T4 instance, and the whole chain on the running example *)
+Example prev_objs_tracks_segments_instance :
+  exists om',
+    update_object_metadata Ex.result 1 None Ex.prev [] =
+      Ok ([(Ex.pA, mkSobj Ex.pA true 6 24 (Some 3) None);
+           (Ex.pB, mkSobj Ex.pB true 10 80 (Some 10) None);
+           (Ex.pC, mkSobj Ex.pC false 2 9 (Some T_STRING) None);
+           (Ex.pD, mkSobj Ex.pD true 7 7 (Some 5) None)], om') /\
+    NoDup (map so_path Ex.result).
+Proof.
+  eexists. split; [vm_compute; reflexivity|apply nodupb_sound; vm_compute; reflexivity].
+Qed.
+
+Lemma ex_prev_wf : prev_wf Ex.prev.
+Proof.
+  intros p po H. cbn in H.
+  destruct (bytes_eqb p Ex.pA); [injection H as <-; left; intros _; vm_compute; reflexivity|].
+  destruct (bytes_eqb p Ex.pB); [injection H as <-; left; intros _; vm_compute; reflexivity|].
+  destruct (bytes_eqb p Ex.pC); [injection H as <-; left; intros _; vm_compute; reflexivity|].
+  discriminate H.
+Qed.
+
+Lemma ex_base_tracked : base_tracked (Some Ex.base) Ex.prev.
+Proof. intros o [<-|[<-|[]]]; reflexivity. Qed.
+
+Example inheritance_transparent_step_instance :
+  prev_keys_ok Ex.prev /\ prev_wf Ex.prev /\ base_tracked (Some Ex.base) Ex.prev /\
+  read_segment_objects 2 (Some Ex.es) Ex.prev (Some Ex.base) =
+    Ok (Ex.result, [(Ex.pC, [Ex.aprop])]) /\
+  toc_has 6 TOC_NEWLIST = true /\
+  read_segment_objects 6 (Some (explicit_entries Ex.result)) Ex.prev (Some Ex.base) =
+    Ok (Ex.result, []).
+Proof.
+  split; [exact ex_prev_keys_ok|]. split; [exact ex_prev_wf|]. split; [exact ex_base_tracked|].
+  split; [vm_compute; reflexivity|]. split; vm_compute; reflexivity.
+Qed.
